@@ -164,7 +164,7 @@ func Generate(t *core.Tape, opt core.RunOpt, agg *core.Agg) *Case {
 	lineCounts := make([][]int, nfiles)
 	for i := 0; i < nfiles; i++ {
 		nl := t.Range(1, 7)
-		f := File{Name: fmt.Sprintf("/sim/p/f%d.go", i), Content: genContent(t, sw, limit, nl)}
+		f := File{Name: fmt.Sprintf("/sim/p/f%d.go", i), Content: core.Text(genContent(t, sw, limit, nl))}
 		lines, _ := splitLines([]byte(f.Content))
 		for _, l := range lines {
 			lineCounts[i] = append(lineCounts[i], len(l))
@@ -195,7 +195,7 @@ func Generate(t *core.Tape, opt core.RunOpt, agg *core.Agg) *Case {
 		}
 		switch {
 		case kind == 7 && sw.edits:
-			nc := editContent(t, sw, limit, c.Files[fi].Content)
+			nc := core.Text(editContent(t, sw, limit, string(c.Files[fi].Content)))
 			c.Ops = append(c.Ops, Op{Kind: "edit", F: fi, NewContent: &nc})
 		case kind >= 8 && len(sw.faults) > 0:
 			fk := sw.faults[t.Draw(len(sw.faults))]
